@@ -267,3 +267,83 @@ class EventBufferCodecSpec(KernelSpec):
 
     def native_view(self, inst, shape, v, st):
         return self.view(v)
+
+
+class WalSegmentCodecSpec(EventBufferCodecSpec):
+    """disk_store::wal_segment::WalSegment::serialize -> deserialize: the segment id and the whole event buffer come back"""
+    dumps = ("main", "ser")
+
+    def instantiations(self, tier):
+        return [{"nat": "wal_segment_roundtrip"}]
+
+    def shapes(self, tier, inst):
+        return ["dense", "sparse", "mixed", "two_tables"] if tier == "quick" else list(SHAPES)
+
+    def sym_inputs(self, inst, shape):
+        inp, pre = EventBufferCodecSpec.sym_inputs(self, inst, shape)
+        inp["id"] = sym("u64", "segment_id")
+        return inp, pre
+
+    def explore(self, ctx, ex, fn, inst, shape, inp, pre):
+        src = ctx.src()
+        tfs = src.struct_fields("TableBuffer")
+        wfs = src.struct_fields("WalSegment")
+        if tfs is None or set(tfs) != {"len", "columns"} or wfs is None or set(wfs) != {"id", "data"}:
+            raise interp.Unsupported("TableBuffer{len, columns} / WalSegment{id, data} not found in the current source")
+        self._tfs = tfs
+        self._wfs = wfs
+        tables = []
+        for t, cols in SHAPES[shape].items():
+            cmap = hashmap_new([(cstr(c.encode()), Agg("struct", [self.column_data(kind, n, inp.get(f"{t}.{c}"))], name="ColumnBuffer")) for c, kind, n in cols])
+            named = {"len": I("u64", table_len(cols)), "columns": cmap}
+            tables.append((cstr(t.encode()), Agg("struct", [named[f] for f in tfs], name="TableBuffer")))
+        eb = Agg("struct", [hashmap_new(tables)], name="EventBuffer")
+        named = {"id": inp["id"], "data": Agg("enum", [Ref(Cell(eb))], name="Cow", variant="Borrowed")}
+        ws = Agg("struct", [named[f] for f in wfs], name="WalSegment")
+        ser = ex.resolve_method("WalSegment", None, "serialize")
+        de = ex.resolve_method("WalSegment", None, "deserialize")
+        if ser is None or de is None:
+            raise interp.Unsupported("WalSegment::{serialize,deserialize} not found")
+        calls = [(ser[0], lambda env: [Ref(Cell(ws))], {}, "bytes"),
+                 (de[0], lambda env: [Ref(env["bytes"], (), (0, len(env["bytes"].v.elems)))], {})]
+        return run_sequence(ex, pre, {}, calls)
+
+    def view(self, value):
+        if isinstance(value, dict) or value is None:
+            return value
+        if value.variant != "Ok":
+            return None
+        ws = value.fields[0]
+        data = ws.fields[self._wfs.index("data")]
+        eb = data.fields[0]
+        from ..mirsym.models import deref_val
+        while isinstance(eb, Ref):
+            eb = deref_val(eb)
+        d = EventBufferCodecSpec.view(self, Agg("enum", [eb], name="Result", variant="Ok"))
+        d = dict(d)
+        d["#id"] = ws.fields[self._wfs.index("id")]
+        return d
+
+    def post(self, inst, shape, inp, value, state=None):
+        got = self.view(value)
+        if got is None:
+            return [("deserialize(serialize(segment)) is Ok", B(False))]
+        got = dict(got)
+        gid = got.pop("#id")
+        return [("the segment id is preserved", binop("Eq", gid, inp["id"]))] + EventBufferCodecSpec.post(self, inst, shape, inp, got, state)
+
+    def native(self, inst, shape, inp):
+        if inp is None:
+            return ("wal_segment_roundtrip", [])
+        k, toks = EventBufferCodecSpec.native(self, inst, shape, inp)
+        return ("wal_segment_roundtrip", [inp["id"].v] + toks)
+
+    def parse_native(self, inst, shape, toks):
+        d = EventBufferCodecSpec.parse_native(self, inst, shape, toks[1:])
+        d["#id"] = I("u64", int(toks[0]))
+        return d
+
+    def random_inputs(self, rng, inst, shape):
+        d = EventBufferCodecSpec.random_inputs(self, rng, inst, shape)
+        d["id"] = I("u64", rng.randint(0, 1 << 40))
+        return d
